@@ -47,11 +47,11 @@ class C10Scenario(ChangeScenario):
                     resets.append(tt)
                 elif last_handled(p['raw']) != essence_ref(p['raw']):
                     resets.append(tt)
-            elif k == 'call' and p['id'] == 'tm':
+            elif k == 'call' and p['id'] == self.params.get('subject_id', 'tm'):
                 if runs and runs[-1]['end'] is None:
                     out.append(self.viol(env, 'overlap', f"t={tt}: the timer started while its previous run (started {runs[-1]['start']}) had not ended", law='no-overlap'))
                 runs.append({'start': tt, 'end': None, 'outcome': p['outcome'], 'retry': p['retry']})
-            elif k == 'ret' and p['id'] == 'tm':
+            elif k == 'ret' and p['id'] == self.params.get('subject_id', 'tm'):
                 for r in reversed(runs):
                     if r['end'] is None:
                         r['end'] = tt
@@ -83,6 +83,16 @@ class C10Scenario(ChangeScenario):
                     if rs < r['start'] < rs + idle:
                         out.append(self.viol(env, 'start-while-idle-pending', f"timer started at {r['start']} within idle={idle} after the essential change seen at {rs}",
                                              law='idle'))
+        if self.params.get('idle_law_only'):
+            # a timer (re)spawned by a filter change next to a sibling: only the idle law (and no-overlap) is judged; the change
+            # that spawned it is a change it has certainly seen
+            subj = next(h for h in self.params['handlers'] if h['id'] == self.params.get('subject_id', 'tm'))
+            match_t = next((tt for tt, k, p in env.obs if k == 'call' and p['id'] == 'ev'
+                            and all(((p['raw'].get('metadata') or {}).get('labels') or {}).get(a) == b for a, b in (subj.get('labels') or {}).items())), None)
+            if idle is not None and match_t is not None and runs and runs[0]['start'] < match_t + idle:
+                out.append(self.viol(env, 'start-while-idle-pending', f"timer {subj['id']} was spawned by the change seen at {match_t} and started at {runs[0]['start']}, "
+                                                                      f"within idle={idle} of it", law='idle', at='spawn'))
+            return out
         # L1: the first run
         first_due = postpone(spawn + (initial or 0.0))
         if runs:
@@ -183,6 +193,19 @@ def build_toggle(tcfg: dict, off: float, on: float, **kw: Any) -> C10Scenario:
                        settings={'persistence__consistency_timeout': 5.0}, **kw)
 
 
+def build_siblings(idle: float, flip_at: float, sibling: str, **kw: Any) -> C10Scenario:
+    """Two spawned handlers filtered on mode=a / mode=b; the label flips long after the previous change: the idle timer of mode=b is
+    spawned in the very cycle in which its sibling is stopped, and must still respect the idle time after this change."""
+    sib = dict(id='ta', on='timer', interval=4.0, script=['ok'], labels={'mode': 'a'}) if sibling == 'timer' else \
+        dict(id='da', on='daemon', reaction='obeys', exit_delay=1.0, labels={'mode': 'a'})
+    tcfg = dict(idle=idle, interval=4.0)
+    handlers = [dict(id='ev', on='event', script=['ok']), sib,
+                dict(id='tb', on='timer', script=['ok'], backoff=BACKOFF, labels={'mode': 'b'}, **tcfg)]
+    user: list[tuple] = [(1.0, 'createl', 'a', 'mode', 'a'), (flip_at, 'label', 'a', 'mode', 'b')]
+    return C10Scenario(handlers=handlers, user=user, horizon=flip_at + 25.0, timer=tcfg, script=['ok'], edits=[flip_at], subject_id='tb', idle_law_only=True,
+                       settings={'persistence__consistency_timeout': 5.0}, **kw)
+
+
 def scripts(tier: str) -> list[list[str]]:
     durs = ['', '~1', '~4', '~6']
     kinds = ['ok', 'temp2', 'arb', 'perm']
@@ -204,6 +227,8 @@ def run(tier: str, seed: int) -> CheckResult:
     plain += [build(t, s, e, backoff=0.0, delays=False, early_user=False, time_dev=False)
               for t in (dict(interval=4.0), dict(interval=4.0, sharp=True), dict(interval=4.0, idle=3.0))
               for s in (['arb', 'ok', 'ok'], ['arb~1', 'arb', 'ok'], ['ok', 'arb', 'ok']) for e in ((), (2.5,))]
+    plain += [build_siblings(idle, flip, sib, delays=False, early_user=False, time_dev=False)
+              for idle in (3.0, 6.0) for flip in (12.0, 20.0) for sib in ('timer', 'daemon')]
     plain += [build_toggle(t, off, off + d, delays=False, early_user=False, time_dev=False)
               for t in (dict(interval=1.5), dict(interval=1.5, sharp=True), dict(interval=4.0, idle=1.0), dict(idle=2.0))
               for off in (2.0, 3.0, 4.0, 6.0) for d in (0.5, 1.0, 2.5)]
